@@ -75,6 +75,18 @@ abbrev R := Except String
 /-- `SliceSet.Add`. -/
 def sadd (l : List Nat) (x : Nat) : List Nat := if x ∈ l then l else l ++ [x]
 
+/-- `SliceSet.Remove` as written in Go: the last element is moved into the hole and the slice is
+shortened.  The model uses `List.erase`; `removeSwap_perm_erase` (Lemmas) shows the two agree up to
+the order of the remaining elements, which the picker never observes (`Has`/`Len` only). -/
+def removeSwap : List Nat → Nat → List Nat
+  | [], _ => []
+  | y :: r, x =>
+    if y = x then
+      match r.getLast? with
+      | none => []
+      | some z => z :: r.dropLast
+    else y :: removeSwap r x
+
 /-! ### state updates -/
 
 def setPiece (s : State) (i : Nat) (pc : Piece) : State :=
